@@ -25,6 +25,7 @@
 
 #include <atomic>
 #include <new>
+#include <thread>
 
 namespace unifex {
 namespace _cancellable {
@@ -35,7 +36,8 @@ struct _op {
     stopped = 1,
     started = 2,
     completed = 4,
-    non_stop = 8
+    non_stop = 8,
+    start_done = 16  // start() no longer touches *this
   };
 
   // NestedOp is embedded in aligned storage rather than used as a base
@@ -78,16 +80,17 @@ struct _op {
     using non_stop_type::non_stop_type;
 
     void start() noexcept {
-      std::atomic<bool> sync_complete{false};
+      bool sync_complete{false};
       sync_complete_ = &sync_complete;
+      start_thread_ = std::this_thread::get_id();
 
       unifex::start(this->nested_op());
 
-      // If the nested op completed synchronously (within unifex::start
+      // If the nested op completed on this thread (within unifex::start
       // above), the receiver may have already destroyed *this. The
       // stack-local sync_complete flag lets us detect this without
       // touching any member.
-      if (sync_complete.load(std::memory_order_acquire)) {
+      if (sync_complete) {
         return;
       }
 
@@ -95,14 +98,16 @@ struct _op {
               this->state_.fetch_or(started, std::memory_order_acq_rel);
           state == stopped) {
         this->nested_op().stop();
-      } else if (state & completed) {
-        // try_complete() ran on another thread after unifex::start()
-        // returned but before we set started. It will write
-        // sync_complete_ = true momentarily. Wait for it to finish
-        // before destroying the stack-local.
-        while (!sync_complete.load(std::memory_order_acquire)) {
+        if (sync_complete) {
+          // stop() completed the operation on this thread.
+          return;
         }
       }
+
+      // A try_complete() running on another thread does not let the
+      // receiver destroy *this before start_done is set, so *this is still
+      // alive here.
+      this->state_.fetch_or(start_done, std::memory_order_release);
     }
 
     void stop() noexcept = delete;
@@ -116,13 +121,15 @@ struct _op {
 
     void (*cleanup_)(stop_type*) noexcept = [](stop_type*) noexcept {
     };
-    std::atomic<bool>* sync_complete_{nullptr};
+    bool* sync_complete_{nullptr};
+    std::thread::id start_thread_{};
   };
 
   struct stop_callback {
     void operator()() noexcept {
       if (auto state = op_->state_.fetch_or(stopped, std::memory_order_acq_rel);
-          state == started /* neither stopped nor completed are set! */) {
+          (state & ~start_done) ==
+          started /* neither stopped nor completed are set! */) {
         op_->nested_op().stop();
       }
     }
@@ -156,13 +163,18 @@ bool try_complete(NestedOp* self) noexcept {
 #  pragma GCC diagnostic push
 #  pragma GCC diagnostic ignored "-Warray-bounds"
 #endif
-    if (!(state & op::started)) {
-      // Notify start() that the op completed before started was set.
-      // start() will either see this via its initial sync_complete
-      // check (synchronous completion on the same thread) or via the
-      // spin-wait after observing completed in fetch_or(started).
-      if (auto* flag = stop_self->sync_complete_) {
-        flag->store(true, std::memory_order_release);
+    if (!(state & op::start_done)) {
+      // start() is still running and may still touch *self.
+      if (std::this_thread::get_id() == stop_self->start_thread_) {
+        // Completing from within start() on the same thread: tell start()
+        // not to touch *self after we return.
+        *stop_self->sync_complete_ = true;
+      } else {
+        // Completing on another thread: wait until start() is done with
+        // *self before the receiver gets a chance to destroy it.
+        while (!(non_stop->state_.load(std::memory_order_acquire) &
+                 op::start_done)) {
+        }
       }
     }
 
@@ -206,6 +218,7 @@ struct _op<NestedOp>::type : _op<NestedOp>::stop_type {
 
     if constexpr (StopsEarly) {
       if (this->state_.load(std::memory_order_acquire) & stopped) {
+        this->state_.fetch_or(start_done, std::memory_order_release);
         this->nested_op().stop();
         return;
       }
